@@ -98,6 +98,7 @@ func (p *ProjectRunner) Run() error {
 	log.Debug().Msgf("Spinning up %d processes. Order: %q", len(runOrder), nameOrder)
 	for _, proc := range runOrder {
 		newConf := proc
+		verifYield("run.loop", newConf.ReplicaName)
 		p.runProcess(&newConf)
 	}
 	p.waitGroup.Wait()
